@@ -169,9 +169,11 @@ def lean_value(v, ty) -> str:
     raise Unsupported(f"cannot render a {ty}")
 
 
-def golden_examples(k) -> list:
+def golden_examples(k, cases=None) -> list:
     out = []
-    if k.lean_name == "refineGuard":
+    if cases is not None:
+        cases = [list(c) for c in cases]
+    elif k.lean_name == "refineGuard":
         cases = [list(c) for c in GOLDEN_GUARD]
     else:
         cases = [[list(t), 0, m] for t in GOLDEN_TRIPLES for m in ("min", "max")]
@@ -216,8 +218,33 @@ def render(ks) -> str:
     return "\n".join(lines) + "\n"
 
 
+def render_selftest() -> str:
+    """the translator's own test functions (translator/pyexpr_selftest.py) rendered to Lean, with the values its
+    evaluator computes: constructs of the subset the production kernels do not all use (tested divisions, merged
+    tuples, elif chains, chained comparisons, …) are checked through the same three-way comparison"""
+    from . import pyexpr_selftest
+
+    lines = [
+        "-- GENERATED by translator/gen_kernels.py from translator/pyexpr_selftest.py. Do not edit.",
+        "import PandoraModel.Model.PyExpr",
+        "set_option linter.unusedVariables false",
+        "namespace Pandora.Generated.KernelsSelfTest",
+        "open Pandora",
+        "",
+    ]
+    for name, k in pyexpr_selftest.accepted_kernels().items():
+        k.always_partial = False
+        text = pyexpr_selftest.ACCEPTED[name][1].strip().replace("-/", "- /").replace("/-", "/ -")
+        lines += ["/-", text, "-/", pyexpr.render_lean(k, always_partial=False)]
+        lines += golden_examples(k, pyexpr_selftest.ACCEPTED[name][2])
+        lines.append("")
+    lines.append("end Pandora.Generated.KernelsSelfTest")
+    return "\n".join(lines) + "\n"
+
+
 def generate():
     ks = kernels()
     write_if_changed("Kernels.lean", render(ks))
+    write_if_changed("KernelsSelfTest.lean", render_selftest())
     return {"T12": {"source": SRC, "digest": digest(*SRC), "kernels": sorted(ks),
                     "tested_divisions": {n: k.partial for n, k in ks.items()}}}
